@@ -153,15 +153,26 @@ class C16Monitor(X.Monitor):
                                 {"got": [got_p, got_q], "want": [want_p, want_q], "ego": ego})
                 # --- tracking history -----------------------------------------------------------------
                 if task == "tracking":
-                    want_idx = expected_tracked(a, i, samples)
+                    # The statement promises "the poses the same instance had in the preceding samples"; how far back the
+                    # history reaches is the devkit's choice (3 s + buffer, 6 records) and not part of the statement.  So:
+                    # every exposed state must be the instance's pose in a preceding sample, most recent first, without
+                    # skipping one; and the history must not be empty when the instance was annotated in the sample before.
+                    prev_idx = [k for k in range(i - 1, -1, -1) if a["states"][k] is not None]
                     path = o.tracked_path
-                    if path is None or len(path) != len(want_idx):
-                        ctx.violate("C16", "tracked_path", "tracked path has %s states, the preceding window holds %d" %
-                                    (None if path is None else len(path), len(want_idx)), {"frame": i})
+                    if path is None:
+                        ctx.violate("C16", "tracked_path", "tracking task but no tracked path on a ground-truth object", {"frame": i})
+                    elif len(path) > len(prev_idx):
+                        ctx.violate("C16", "tracked_path", "tracked path has %d states, the instance has only %d preceding annotations" %
+                                    (len(path), len(prev_idx)), {"frame": i})
                     else:
-                        if want_idx:
-                            ctx.probe("c16_tracked_states", len(want_idx))
-                        for stt, k in zip(path, want_idx):
+                        devkit = expected_tracked(a, i, samples)
+                        if len(path) != len(devkit):
+                            ctx.probe("c16_tracked_window_differs_from_devkit")
+                        if not path and prev_idx and prev_idx[0] == i - 1 and (s["t"] - samples[i - 1]["t"]) < 3_000_000:
+                            ctx.violate("C16", "tracked_path", "empty tracked path although the instance was annotated in the sample before", {"frame": i})
+                        if path:
+                            ctx.probe("c16_tracked_states", len(path))
+                        for stt, k in zip(path, prev_idx):
                             pk = tuple(a["states"][k]["pose"])
                             if not _close(tuple(stt.shape.size), tuple(a["size"]), 1e-9):
                                 ctx.violate("C16", "tracked_path", "tracked state size differs from the annotation", {})
@@ -170,8 +181,9 @@ class C16Monitor(X.Monitor):
                                 if not _close(tuple(stt.position), pk[:3]) or rm.q_angle_between(
                                     tuple(float(e) for e in stt.orientation.elements), qk
                                 ) > ANG_TOL:
-                                    ctx.violate("C16", "tracked_path", "tracked state pose differs from the preceding annotation",
+                                    ctx.violate("C16", "tracked_path", "tracked state is not the instance's pose in the corresponding preceding sample (most recent first, none skipped)",
                                                 {"frame": i, "back": k})
+                                    break
 
 
 class C17Monitor(X.Monitor):
